@@ -1043,8 +1043,15 @@ static void gen_expr(Node *node) {
     gen_expr(node->rhs);
     pop("%rdi");
 
-    int sz = node->lhs->ty->base->size;
-    println("  xchg %s, (%%rdi)", reg_ax(sz));
+    Type *ty = node->lhs->ty->base;
+    println("  xchg %s, (%%rdi)", reg_ax(ty->size));
+
+    // A value shorter than 4 bytes is kept sign- or zero-extended in
+    // %eax; xchg has only replaced the low byte or word.
+    if (ty->size == 1)
+      println("  %s %%al, %%eax", ty->is_unsigned ? "movzbl" : "movsbl");
+    else if (ty->size == 2)
+      println("  %s %%ax, %%eax", ty->is_unsigned ? "movzwl" : "movswl");
     return;
   }
   }
